@@ -136,6 +136,36 @@ def r1_static(repo: Repo, rep):
         acts = sorted({dump(c.func) for c in ast.walk(q.node) if isinstance(c, ast.Call) and dump(c.func) in ("self.sample_points", "self.sampler.sample_points", "next")}
                       | {dump(t) for n in ast.walk(q.node) if isinstance(n, (ast.Assign, ast.AugAssign)) for t in (n.targets if isinstance(n, ast.Assign) else [n.target]) if dump(t).startswith("self.")})
         rep.check(R, not acts, q.site(), q.fq, f"{qname} is a pure query: it neither draws nor counts a use", str(acts), f"{qname}: {acts}")
+    # ---- next(static) serves the cached set without counting a use
+    nx = ss.methods.get("__next__")
+    if nx is not None:
+        rep.saw(nx)
+        served = 0
+        for p in paths(nx.node):
+            if p.ret is RAISE:
+                continue
+            created = [pol for g, pol, kind in _flat_guards(p) if kind == "if" and dump(g) in ("self.created_points", "self.created_points is not None")]
+            calls = [dump(c.func) for e in p.events if e.value is not None for c in ast.walk(e.value) if isinstance(c, ast.Call) and dump(c.func) in ("self.sample_points", "self.sampler.sample_points")]
+            writes = [dump(e.target) for e in p.events if e.kind in ("attr", "aug")]
+            if created and created[0]:
+                served += 1
+                rep.check(R, not calls and not writes and dump(p.ret) == "self.created_points", nx.site(p.ret_node), nx.fq, "with a cached set next() returns it and neither draws nor counts a use",
+                          f"calls {calls}, writes {writes}, returns {dump(p.ret)[:50]}", f"next hit: {calls} {writes}")
+        rep.check(R, served >= 1, nx.site(), nx.fq, "next() has a path that serves the cached set (guarded by self.created_points)", f"{served} such path(s): every next() counts as a use / may redraw",
+                  "next never serves the cache")
+    # ---- every make_static of the sampler classes honours the requested interval
+    for mname, m in repo.modules.items():
+        if ".problem.samplers." not in mname:
+            continue
+        for ci in m.classes.values():
+            f2 = ci.methods.get("make_static")
+            if f2 is None or ci is ss:
+                continue
+            rep.saw(f2)
+            prm = [a for a in f2.params[1:]]
+            used = {x.id for x in ast.walk(f2.node) if isinstance(x, ast.Name) and isinstance(x.ctx, ast.Load)}
+            missing = [a for a in prm if a not in used]
+            rep.check(R, bool(prm) and not missing, f2.site(), f2.fq, "make_static passes the requested resample_interval on", f"parameters {prm}, never read: {missing}", f"{ci.name}.make_static ignores {missing}")
     # ---- constructor state
     init = ss.methods.get("__init__")
     if init is not None:
